@@ -1,9 +1,10 @@
 import DepsDev.Proofs.C03L3Incl
 
 /-!
-# C03 layer L3 for npm, operator `ge`: interval membership of a prerelease candidate
+# C03 layer L3 for npm, operator `ge`: interval membership of a prerelease candidate (operands without tag)
 
-See `C03L3Incl` for the statement (`L1PNpm`) and the proof script.
+See `C03L3Incl` for the statements and the proof script; `C03L3InclGeP` has the tagged operands
+and the assembled `L1PNpm .ge`.
 -/
 namespace DepsDev.Proofs.C03
 
@@ -13,12 +14,6 @@ set_option linter.unusedSimpArgs false
 set_option linter.unusedVariables false
 
 theorem l1p_full_ge : L1PFull .ge := by l1p_full
-theorem l1p_pre_lt_ge : L1PPreO .ge .lt := by l1p_pre
-theorem l1p_pre_eq_ge : L1PPreO .ge .eq := by l1p_pre
-theorem l1p_pre_gt_ge : L1PPreO .ge .gt := by l1p_pre
 theorem l1p_part_ge : L1PPart .ge := by l1p_part
-
-theorem l1p_npm_ge : L1PNpm .ge :=
-  l1p_assemble _ l1p_full_ge (l1p_pre_assemble _ l1p_pre_lt_ge l1p_pre_eq_ge l1p_pre_gt_ge) l1p_part_ge
 
 end DepsDev.Proofs.C03
